@@ -63,7 +63,7 @@ def make_keys(directory):
 def token_for(leaf):
     if leaf["key"] == "none":
         return "ENC[PKCS7,corrupt%s]" % fe.digest(leaf["pt"])[:4]
-    return fe.cipher_encrypt(key_id(leaf["key"]), leaf["pt"].encode("ascii"))
+    return fe.cipher_encrypt(key_id(leaf["key"]), leaf["pt"].encode("ascii"))      # any ASCII text, the empty one too
 
 
 # --------------------------------------------------------------------------- tree -> YAML text
@@ -148,14 +148,40 @@ def is_marker(v):
     return isinstance(v, str) and v.replace("\n", "").replace(" ", "").startswith("ENC[")
 
 
+WS = " \t\n\r\x0b\x0c\x1c\x1d\x1e\x1f"      # what str.rstrip() removes from ASCII text
+
+
+def trail_class(plain):
+    """Shape of a plaintext's end (spec/YRotate.tla objs[].trail)."""
+    if plain == "":
+        return "empty"
+    if plain.strip(WS) == "":
+        return "allws"
+    return "ws" if plain[-1] in WS else ""
+
+
 class Tables:
-    """Identities of plaintexts / plain values within one case."""
+    """Identities of plaintexts / plain values within one invocation.
+
+    After freeze(), a plaintext that is not one of the originals but equals an original without its trailing white
+    space gets the NEGATIVE identity of that original (spec/YRotate.tla Taken)."""
 
     def __init__(self):
         self.ids = {}
+        self.stripped = None
 
     def pt(self, key):
+        if self.stripped is not None and key not in self.ids and key[0] == "s" and key[1] in self.stripped:
+            return self.stripped[key[1]]
         return self.ids.setdefault(key, len(self.ids) + 1)
+
+    def freeze(self):
+        self.stripped = {}
+        for key, pid in list(self.ids.items()):
+            if key[0] == "s":
+                r = key[1].rstrip(WS.encode("ascii"))
+                if r != key[1] and ("s", r) not in self.ids:
+                    self.stripped.setdefault(r, -pid)
 
     def decode(self, v):
         """(key class, plaintext identity, plaintext or None) of a scalar value."""
@@ -225,7 +251,8 @@ def abstract_rot(data, tables):
             k, pt, plain = tables.decode(v)
             head = (v if isinstance(v, str) else absdoc.scalar_tv(v)[1])[:16]
             objs.append({"head": str(head), "key": k, "pt": pt, "anc": absdoc.anchor_of(v),
-                         "folded": isinstance(v, FoldedScalarString)})
+                         "folded": isinstance(v, FoldedScalarString),
+                         "trail": trail_class(plain) if plain is not None else ""})
             obj_of_class[c] = len(objs)
         o = obj_of_class[c]
         slots.append({"cont": cid, "ct": ct, "o": o})
@@ -246,9 +273,10 @@ def frame_table(data):
 
 # --------------------------------------------------------------------------- recording wrappers
 class Recorder:
-    def __init__(self, logpath, tables):
+    def __init__(self, logpath, tables, names):
         self.logpath = logpath
         self.tables = tables
+        self.names = names            # basenames of the YAML files in argv order
         self.depth = 0
         self.slotmap = None
 
@@ -273,6 +301,7 @@ class Recorder:
 def _install(rk, rec):
     """Replace names in the command module's namespace by recording versions; returns an undo function."""
     base = rk.EYAMLProcessor
+    base_parsers = rk.Parsers
     real_copy2 = rk.copy2
 
     class RecordingProcessor(base):
@@ -296,6 +325,13 @@ def _install(rk, rec):
                 rec.depth -= 1
             rec.log({"op": "Store", "after": view(self.data, rec.tables)})
 
+    class RecordingParsers(base_parsers):
+        @staticmethod
+        def get_yaml_data(parser, logger, source, **kwargs):
+            name = os.path.basename(str(source))
+            rec.log({"op": "NextFile", "fi": rec.names.index(name) + 1 if name in rec.names else 0})
+            return base_parsers.get_yaml_data(parser, logger, source, **kwargs)
+
     def copy2(src, dst, *a, **k):
         rec.log({"op": "Backup", "src": os.path.basename(str(src)), "dst": os.path.basename(str(dst))})
         return real_copy2(src, dst, *a, **k)
@@ -306,23 +342,27 @@ def _install(rk, rec):
         return builtins.open(file, mode, *a, **k)
 
     rk.EYAMLProcessor = RecordingProcessor
+    rk.Parsers = RecordingParsers
     rk.copy2 = copy2
     rk.open = open_
 
     def undo():
         rk.EYAMLProcessor = base
+        rk.Parsers = base_parsers
         rk.copy2 = real_copy2
         del rk.open
     return undo
 
 
-def _events(loglines, tables, ctmap):
+def _events(loglines, tables, ctmap, ptd):
     """Merged log -> YRotate event records (exact field sets of spec/YRotate.tla Expect)."""
     ev = []
     raw = []
     for r in loglines:
         op = r["op"]
-        if op == "Find":
+        if op == "NextFile":
+            ev.append({"e": "NextFile", "fi": r["fi"]})
+        elif op == "Find":
             ev.append({"e": "Find"})
         elif op == "Node":
             ev.append({"e": "Node", "pos": r["pos"], "anc": r["anc"]})
@@ -335,9 +375,9 @@ def _events(loglines, tables, ctmap):
         elif op == "decrypt":
             ct = ctmap.get(r["ct"], ("?", -1))
             ev.append({"e": "Decrypt", "key": KEYNAME_OF.get(r["key"], "?"), "ct": {"key": ct[0], "pt": ct[1]},
-                       "ok": bool(r["ok"]), "pt": tables.ptd.get(r["pt"], -1) if r["ok"] else 0})
+                       "ok": bool(r["ok"]), "pt": ptd.get(r["pt"], 0) if r["ok"] else 0})
         elif op == "encrypt":
-            ev.append({"e": "Encrypt", "key": KEYNAME_OF.get(r["key"], "?"), "pt": tables.ptd.get(r["pt"], -1),
+            ev.append({"e": "Encrypt", "key": KEYNAME_OF.get(r["key"], "?"), "pt": ptd.get(r["pt"], 0),
                        "fmt": r["output"], "ok": bool(r["ok"])})
         else:
             ev.append({"e": "Other:" + str(op)})
@@ -345,40 +385,50 @@ def _events(loglines, tables, ctmap):
     return ev, raw
 
 
-def run_case(text, backup, work, keys, eyaml_arg=None):
-    """Run the real eyaml-rotate-keys main() on `text`; returns the observation record (see fields below)."""
+def run_case(texts, backup, work, keys, eyaml_arg=None):
+    """Run the real eyaml-rotate-keys main() ONCE on the files `texts` (a str = one file).
+
+    Returns {"backup", "rc", "crash", "events", "rawlog", "stray", "keys", "files": [per file: text, doc, info,
+    rewritten, touched, after_text, bak_ok, view, filecheck, reload_error, frame_ok, after_info]}."""
     from yamlpath.commands import eyaml_rotate_keys as rk
+    if isinstance(texts, str):
+        texts = [texts]
     shutil.rmtree(work, ignore_errors=True)
     os.makedirs(work)
-    path = os.path.join(work, "doc.yaml")
-    with open(path, "w") as fh:
-        fh.write(text)
     past = 1_500_000_000_000_000_000
-    os.utime(path, ns=(past, past))
     logpath = os.path.join(work, "eyaml.log")
     open(logpath, "w").close()
     tables = Tables()
-    data0 = absdoc.load(text)
-    doc, info = abstract_rot(data0, tables)
+    files = []
+    for k, text in enumerate(texts, 1):
+        path = os.path.join(work, "doc%d.yaml" % k)
+        with open(path, "w", newline="") as fh:
+            fh.write(text)
+        os.utime(path, ns=(past, past))
+        data0 = absdoc.load(text)
+        doc, info = abstract_rot(data0, tables)
+        files.append({"text": text, "path": path, "data0": data0, "doc": doc, "info": info,
+                      "mtime": os.stat(path).st_mtime_ns})
+    tables.freeze()
     # digests -> identities: plaintext digests as the stand-in logs them; token digests per (plaintext, key)
-    tables.ptd = {}
-    ctmap = {}
+    ptd, ctmap = {}, {}
     for (kind, *rest), pid in list(tables.ids.items()):
         if kind == "s":
-            tables.ptd[fe.digest(rest[0])] = pid
+            ptd[fe.digest(rest[0])] = pid
             for n in KEYNAMES:
                 ctmap[fe.digest(fe.cipher_encrypt(key_id(n), rest[0]))] = (n, pid)
         elif kind == "raw":
             ctmap[fe.digest(rest[0])] = ("none", pid)
-    before = {"bytes": text.encode("utf-8"), "mtime": os.stat(path).st_mtime_ns, "ls": sorted(os.listdir(work))}
+    for plain, neg in tables.stripped.items():
+        ptd.setdefault(fe.digest(plain), neg)
     argv = ["eyaml-rotate-keys", "--oldprivatekey=" + keys["old"][1], "--oldpublickey=" + keys["old"][0],
             "--newprivatekey=" + keys["new"][1], "--newpublickey=" + keys["new"][0]]
     if backup:
         argv.append("--backup")
     if eyaml_arg:
         argv.append("--eyaml=" + eyaml_arg)
-    argv.append(path)
-    rec = Recorder(logpath, tables)
+    argv += [f["path"] for f in files]
+    rec = Recorder(logpath, tables, [os.path.basename(f["path"]) for f in files])
     undo = _install(rk, rec)
     old_argv, old_path, old_log = sys.argv, os.environ.get("PATH", ""), os.environ.get("FAKE_EYAML_LOG")
     sys.argv = argv
@@ -413,46 +463,50 @@ def run_case(text, backup, work, keys, eyaml_arg=None):
             os.environ["FAKE_EYAML_LOG"] = old_log
     with open(logpath) as fh:
         loglines = [json.loads(line) for line in fh if line.strip()]
-    events, rawlog = _events(loglines, tables, ctmap)
+    events, rawlog = _events(loglines, tables, ctmap, ptd)
     events.append({"e": "Exit", "status": rc})
-    with open(path, "rb") as fh:
-        after_bytes = fh.read()
-    after = {"mtime": os.stat(path).st_mtime_ns, "ls": sorted(f for f in os.listdir(work) if f != "eyaml.log")}
-    before["ls"] = [f for f in before["ls"] if f != "eyaml.log"]
-    rewritten = after_bytes != before["bytes"] or after["mtime"] != before["mtime"]
-    obs = {"text": text, "backup": bool(backup), "doc": doc, "info": info, "events": events, "rawlog": rawlog, "rc": rc,
-           "crash": crash, "stderr": err.getvalue()[-400:], "rewritten": rewritten,
-           "touched": rewritten or after["ls"] != before["ls"], "ls_after": after["ls"],
-           "after_text": after_bytes.decode("utf-8", "replace") if rewritten else "",
-           "bak_ok": None, "file": [], "reload_error": "", "frame_ok": None, "after_info": []}
-    bak = path + ".bak"
-    if os.path.exists(bak):
-        with open(bak, "rb") as fh:
-            obs["bak_ok"] = fh.read() == before["bytes"]
-    if rewritten:
-        noise = io.StringIO()
-        try:
-            with contextlib.redirect_stdout(noise), contextlib.redirect_stderr(noise):
-                data1 = absdoc.load(obs["after_text"])
-            obs["file"] = view(data1, tables)
-            _, obs["after_info"] = abstract_rot(data1, tables)
-            obs["frame_ok"] = absdoc.same_table(frame_table(data0), frame_table(data1), anchors=True)
-        except Exception as ex:
-            msg = " ".join(noise.getvalue().split())
-            obs["reload_error"] = "%s: %s" % (type(ex).__name__, msg[:160] or str(ex)[:160])
-    obs["keys"] = keys
-    return obs
+    expected_names = {"eyaml.log"}
+    for f in files:
+        path = f["path"]
+        expected_names |= {os.path.basename(path), os.path.basename(path) + ".bak"}
+        with open(path, "rb") as fh:
+            after_bytes = fh.read()
+        f["rewritten"] = after_bytes != f["text"].encode("utf-8") or os.stat(path).st_mtime_ns != f["mtime"]
+        f["bak_ok"] = None
+        if os.path.exists(path + ".bak"):
+            with open(path + ".bak", "rb") as fh:
+                f["bak_ok"] = fh.read() == f["text"].encode("utf-8")
+        f["touched"] = f["rewritten"] or f["bak_ok"] is not None
+        f.update({"after_text": after_bytes.decode("utf-8", "replace") if f["rewritten"] else "", "view": [],
+                  "reload_error": "", "frame_ok": None, "after_info": []})
+        if f["rewritten"]:
+            noise = io.StringIO()
+            try:
+                with contextlib.redirect_stdout(noise), contextlib.redirect_stderr(noise):
+                    data1 = absdoc.load(f["after_text"])
+                f["view"] = view(data1, tables)
+                _, f["after_info"] = abstract_rot(data1, tables)
+                f["frame_ok"] = absdoc.same_table(frame_table(f["data0"]), frame_table(data1), anchors=True)
+            except Exception as ex:
+                msg = " ".join(noise.getvalue().split())
+                f["reload_error"] = "%s: %s" % (type(ex).__name__, msg[:160] or str(ex)[:160])
+        f["filecheck"] = bool(f["rewritten"] and not f["reload_error"])
+        del f["data0"], f["mtime"]
+    stray = sorted(set(os.listdir(work)) - expected_names)
+    return {"backup": bool(backup), "rc": rc, "crash": crash, "stderr": err.getvalue()[-400:], "events": events,
+            "rawlog": rawlog, "files": files, "stray": stray, "keys": keys}
 
 
 def standin_decrypt(value, keypair):
-    """Decrypt through the stand-in *executable* (the protocol, not the imported functions)."""
+    """Decrypt through the stand-in *executable* (the protocol): (status, exactly the plaintext it printed)."""
     import subprocess
     env = dict(os.environ)
     env.pop("FAKE_EYAML_LOG", None)
     p = subprocess.run([FAKE, "decrypt", "--quiet", "--stdin", "--pkcs7-public-key=" + keypair[0],
                         "--pkcs7-private-key=" + keypair[1]], input=str(value).encode("ascii"),
                        stdout=subprocess.PIPE, stderr=subprocess.PIPE, env=env)
-    return p.returncode, p.stdout.decode("ascii").rstrip("\n")
+    out = p.stdout.decode("ascii")
+    return p.returncode, out[:-1] if out.endswith("\n") else out       # the protocol appends exactly one line break
 
 
 # --------------------------------------------------------------------------- the projection (verdict)
@@ -468,82 +522,114 @@ def slot_class(info, i):
     return "alias-in-%s-%s" % ("same" if me["cont"] == first["cont"] else "foreign", me["ct"])
 
 
+def _segments(events):
+    """Events of each file: the stretch from its NextFile to the next one."""
+    seg = {}
+    cur = None
+    for e in events:
+        if e["e"] == "NextFile":
+            cur = e["fi"]
+            seg.setdefault(cur, [])
+        elif cur is not None:
+            seg[cur].append(e)
+    return seg
+
+
 def judge(obs, use_executable=False):
-    """Compare the observable outcome with the C19 statement; returns [(signature, description)]."""
-    bad = []
-    info = obs["info"]
-    secrets = [i for i, x in enumerate(info) if x["secret"]]
-    if not secrets:
-        if obs["touched"]:
-            bad.append(("rotate:no-secret-file-touched", "a file holding no ENC[ value was rewritten or backed up: %s" % obs["ls_after"]))
-        if any(r.get("op") in ("encrypt", "decrypt") for r in obs["rawlog"]):
-            bad.append(("rotate:no-secret-command-run", "the external command was run for a file holding no ENC[ value"))
-        return bad
-    if obs["rc"] != 0:
-        return bad                       # the statement speaks about successful runs only
-    if not obs["rewritten"]:
-        bad.append(("rotate:not-rewritten", "exit 0 on a file with %d encrypted value(s) but the file was not rewritten" % len(secrets)))
-        return bad
-    if obs["reload_error"]:
-        # name the input class from the last in-memory document the tool held (the final Store's view)
-        last = next((e["after"] for e in reversed(obs["events"]) if e["e"] == "Store"), [])
-        left = sorted({slot_class(info, i) for i in secrets if i < len(last) and last[i]["key"] == "old"})
-        bad.append(("rotate:unreadable-result:" + ("+".join(left) or "other"),
-                    "exit 0 but the rewritten file does not load with yamlpath's own loader (%s); value(s) left under the "
-                    "old keys in memory: %s" % (obs["reload_error"], left)))
-        return bad
-    after = obs["after_info"]
-    if len(after) != len(info):
-        bad.append(("rotate:frame:positions", "the rewritten file has %d scalar positions, the original %d" % (len(after), len(info))))
-        return bad
-    # decrypt per position under new and old keys
-    data1 = absdoc.load(obs["after_text"])
-    vals1 = [v for (_, _, _, _, v) in walk(data1)]
-    for i in secrets:
-        v = vals1[i]
-        cls = slot_class(info, i)
-        where = "position %d (%s, container %d ref %s)" % (i + 1, cls, info[i]["cont"], info[i]["ref"])
-        if not is_marker(v):
-            bad.append(("rotate:not-encrypted:" + cls, where + " no longer holds an ENC[ value: %r" % str(v)[:40]))
+    """Compare the observable outcome with the C19 statement, file by file.
+
+    Returns (violations [(signature, description)], informational notes [str])."""
+    bad, notes = [], []
+    nfiles = len(obs["files"])
+    seg = _segments(obs["events"])
+    if obs["stray"]:
+        bad.append(("rotate:stray-file", "unexpected files appeared next to the YAML files: %s" % obs["stray"]))
+    for k, f in enumerate(obs["files"], 1):
+        tag = "" if nfiles == 1 else ("@first-file" if k == 1 else "@later-file")
+        fname = "file %d of %d: " % (k, nfiles)
+        info = f["info"]
+        secrets = [i for i, x in enumerate(info) if x["secret"]]
+        mine = seg.get(k, [])
+        if not secrets:
+            if f["touched"]:
+                bad.append(("rotate:no-secret-file-touched" + tag, fname + "a file holding no ENC[ value was rewritten or backed up"))
+            if any(e["e"] in ("Decrypt", "Encrypt") for e in mine):
+                bad.append(("rotate:no-secret-command-run" + tag, fname + "the external command was run for a file holding no ENC[ value"))
             continue
-        if use_executable:
-            rc_new, pt_new = standin_decrypt(v, obs["keys"]["new"])
-            rc_old, _ = standin_decrypt(v, obs["keys"]["old"])
-            new_ok, old_ok = rc_new == 0, rc_old == 0
-        else:
-            new_ok = after[i]["key"] == "new"
-            old_ok = after[i]["key"] == "old"
-            pt_new = after[i]["plain"] if new_ok else None
-        if info[i]["key"] != "old":
-            continue                     # was not decryptable under the old keys: the statement does not cover it
-        if old_ok:
-            bad.append(("rotate:still-old:" + cls, where + " still decrypts under the OLD keys after a successful run"))
-        elif not new_ok:
-            bad.append(("rotate:not-new:" + cls, where + " does not decrypt under the new keys"))
-        elif pt_new != info[i]["plain"]:
-            bad.append(("rotate:plaintext:" + cls, where + " decrypts to %r, was %r" % (pt_new, info[i]["plain"])))
-    # sharing: same partition of positions into shared values
-    for i in secrets:
-        if after[i]["cls"] != info[i]["cls"]:
-            bad.append(("rotate:sharing:" + slot_class(info, i),
-                        "position %d shared its value with position %d, now with %d" % (i + 1, info[i]["cls"], after[i]["cls"])))
-    # rotated once: successful decrypt / encrypt runs per plaintext = number of distinct old-key cells holding it
-    cells = {}
-    for i in secrets:
-        if info[i]["key"] == "old":
-            cells.setdefault(info[i]["pt"], set()).add(info[i]["cls"])
-    ndec, nenc = {}, {}
-    for e in obs["events"]:
-        if e["e"] == "Decrypt" and e["ok"]:
-            ndec[e["pt"]] = ndec.get(e["pt"], 0) + 1
-        if e["e"] == "Encrypt" and e["ok"]:
-            nenc[e["pt"]] = nenc.get(e["pt"], 0) + 1
-    for pt, cs in cells.items():
-        if ndec.get(pt, 0) != len(cs) or nenc.get(pt, 0) != len(cs):
-            kinds = sorted({slot_class(info, i) for i in secrets if info[i]["pt"] == pt})
-            bad.append(("rotate:not-once:" + "+".join(kinds),
-                        "plaintext #%d is held by %d value(s) but was decrypted %d and encrypted %d time(s)" % (
-                            pt, len(cs), ndec.get(pt, 0), nenc.get(pt, 0))))
-    if obs["frame_ok"] is False:
-        bad.append(("rotate:frame:changed", "a non-encrypted key, value, ordering or anchor differs after the run"))
-    return bad
+        if obs["rc"] != 0:
+            continue                     # the statement speaks about successful runs only
+        if not f["rewritten"]:
+            bad.append(("rotate:not-rewritten" + tag, fname + "exit 0, %d encrypted value(s), but the file was not rewritten" % len(secrets)))
+            continue
+        if f["reload_error"]:
+            # name the input class from the last in-memory document the tool held (the final Store's view)
+            last = next((e["after"] for e in reversed(mine) if e["e"] == "Store"), [])
+            left = sorted({slot_class(info, i) for i in secrets if i < len(last) and last[i]["key"] == "old"})
+            bad.append(("rotate:unreadable-result:" + ("+".join(left) or "other") + tag,
+                        fname + "exit 0 but the rewritten file does not load with yamlpath's own loader (%s); value(s) left "
+                        "under the old keys in memory: %s" % (f["reload_error"], left)))
+            continue
+        after = f["after_info"]
+        if len(after) != len(info):
+            bad.append(("rotate:frame:positions" + tag, fname + "the rewritten file has %d scalar positions, the original %d" % (len(after), len(info))))
+            continue
+        vals1 = [v for (_, _, _, _, v) in walk(absdoc.load(f["after_text"]))]
+        for i in secrets:
+            v = vals1[i]
+            cls = slot_class(info, i)
+            where = fname + "position %d (%s, container %d ref %s)" % (i + 1, cls, info[i]["cont"], info[i]["ref"])
+            if not is_marker(v):
+                bad.append(("rotate:not-encrypted:" + cls + tag, where + " no longer holds an ENC[ value: %r" % str(v)[:40]))
+                continue
+            if use_executable:
+                rc_new, pt_new = standin_decrypt(v, obs["keys"]["new"])
+                rc_old, _ = standin_decrypt(v, obs["keys"]["old"])
+                new_ok, old_ok = rc_new == 0, rc_old == 0
+            else:
+                new_ok = after[i]["key"] == "new"
+                old_ok = after[i]["key"] == "old"
+                pt_new = after[i]["plain"] if new_ok else None
+            if info[i]["key"] != "old":
+                continue                 # was not decryptable under the old keys: the statement does not cover it
+            was = info[i]["plain"]
+            if old_ok:
+                bad.append(("rotate:still-old:" + cls + tag, where + " still decrypts under the OLD keys after a successful run"))
+            elif not new_ok:
+                bad.append(("rotate:not-new:" + cls + tag, where + " does not decrypt under the new keys"))
+            elif pt_new != was:
+                if was[-1:] in ("\n", "\r"):
+                    # the command protocol ends the plaintext with a line break of its own (the real eyaml prints with
+                    # `puts`): a plaintext that itself ends in a line break cannot be told apart - not judged
+                    notes.append("plaintext ending in a line break changed: %r -> %r" % (was, pt_new))
+                elif pt_new == was.rstrip(WS):
+                    kind = {" ": "space", "\t": "tab"}.get(was[-1], "other")
+                    bad.append(("rotate:plaintext:trailing-whitespace-lost:" + kind,
+                                where + " decrypts to %r, was %r (white space at the end of the plaintext lost)" % (pt_new, was)))
+                else:
+                    bad.append(("rotate:plaintext:" + cls + tag, where + " decrypts to %r, was %r" % (pt_new, was)))
+        # sharing: same partition of positions into shared values
+        for i in secrets:
+            if after[i]["cls"] != info[i]["cls"]:
+                bad.append(("rotate:sharing:" + slot_class(info, i) + tag,
+                            fname + "position %d shared its value with position %d, now with %d" % (i + 1, info[i]["cls"], after[i]["cls"])))
+        # rotated once: successful decrypt runs per plaintext = number of distinct old-key cells holding it in this
+        # file, and every decryption is followed by exactly one encryption
+        cells = {}
+        for i in secrets:
+            if info[i]["key"] == "old":
+                cells.setdefault(info[i]["pt"], set()).add(info[i]["cls"])
+        ndec = {}
+        for e in mine:
+            if e["e"] == "Decrypt" and e["ok"]:
+                ndec[e["pt"]] = ndec.get(e["pt"], 0) + 1
+        nenc = sum(1 for e in mine if e["e"] == "Encrypt" and e["ok"])
+        for pt, cs in sorted(cells.items()):
+            if ndec.get(pt, 0) != len(cs):
+                kinds = sorted({slot_class(info, i) for i in secrets if info[i]["pt"] == pt})
+                bad.append(("rotate:not-once:" + "+".join(kinds) + tag,
+                            fname + "plaintext #%d is held by %d value(s) but was decrypted %d time(s)" % (pt, len(cs), ndec.get(pt, 0))))
+        if nenc != sum(ndec.values()):
+            bad.append(("rotate:not-once:encryptions" + tag, fname + "%d decryptions but %d encryptions" % (sum(ndec.values()), nenc)))
+        if f["frame_ok"] is False:
+            bad.append(("rotate:frame:changed" + tag, fname + "a non-encrypted key, value, ordering or anchor differs after the run"))
+    return bad, notes
